@@ -306,6 +306,13 @@ func (g *Gen) zWrite(blindOnly bool) Op {
 	x := g.R.Intn(100)
 	if blindOnly || x < 55 || n == 0 && x < 85 {
 		g.ctr++
+		if n >= 2 && g.R.Intn(4) == 0 {
+			// move an existing member onto the score of another one (ties are broken by key: the member may have to
+			// change places with its neighbour although its score stays within the neighbours' range)
+			ns := g.M.zsorted(b)
+			i, j := g.R.Intn(n), g.R.Intn(n)
+			return Op{K: "ZAdd", B: b, Key: []byte(ns[i].K), F: ns[j].S, Val: []byte("z" + strconv.Itoa(g.ctr))}
+		}
 		return Op{K: "ZAdd", B: b, Key: g.zKey(), F: zScores[g.R.Intn(len(zScores))], Val: []byte("z" + strconv.Itoa(g.ctr))}
 	}
 	switch {
